@@ -26,6 +26,7 @@ type C20Scenario struct {
 	Init    Tree     `json:"init"`
 	Commits []Commit `json:"commits"`
 	Strict  bool     `json:"strict"`
+	Branch  string   `json:"branch,omitempty"` // name of the branch under review
 	// Mixed: only paths under relaxed/ are parsed in relaxed mode (parser { relaxed = ["relaxed/.*"] }); files there are
 	// bare rule lists, everywhere else they are strict documents. A bare list moved to a strict path does not parse
 	// until its author rewrites it.
@@ -115,7 +116,7 @@ func drawC20(rt *rapid.T) C20Scenario {
 	g := &gen{rt: rt}
 	mode := g.pick("mode", 5)
 	g.strict = mode < 2
-	sc := C20Scenario{Strict: g.strict, Mixed: mode == 4, Init: Tree{}}
+	sc := C20Scenario{Strict: g.strict, Mixed: mode == 4, Init: Tree{}, Branch: BranchNames[g.pick("branch", len(BranchNames))]}
 	allPaths := paths
 	if sc.Mixed {
 		allPaths = mixedPaths
@@ -195,7 +196,25 @@ func drawC20(rt *rapid.T) C20Scenario {
 	if len(script) > ncommits {
 		ncommits = len(script)
 	}
+	mainT := sc.Init.clone()
+	baseActive := g.pick("baseactive", 3) == 0
 	for c := 0; c < ncommits; c++ {
+		if baseActive && g.pick("basenow", 3) == 0 {
+			// Meanwhile on the base branch: rules are dropped or added in the same files. The branch is not
+			// rebased, so what it removed is still judged against the fork point, not against this.
+			mk := sortedKeys(mainT)
+			bp := mk[g.pick("bp", len(mk))]
+			bf := mainT[bp].clone()
+			if len(bf.Rules) > 1 && g.pick("bop", 2) == 0 {
+				at := g.pick("bat", len(bf.Rules))
+				bf.Rules = append(bf.Rules[:at:at], bf.Rules[at+1:]...)
+			} else {
+				bf.Rules = append(bf.Rules, g.newRule20(bf, mainT))
+			}
+			mainT[bp] = bf
+			sc.Commits = append(sc.Commits, Commit{Actor: "base", Set: map[string]*File{bp: bf.clone()}, Msg: fmt.Sprintf("base %d", c)})
+			sc.Evaluations = append(sc.Evaluations, Evaluation{AfterCommit: -1})
+		}
 		cm := Commit{Actor: "feature", Set: map[string]*File{}, Msg: fmt.Sprintf("feature %d", c)}
 		ks := sortedKeys(head)
 		if len(ks) == 0 {
@@ -384,7 +403,8 @@ func runC20(t *testing.T, sc C20Scenario, record bool) *detsim.Outcome {
 	}
 	must(repo.WriteTree(sc.Init))
 	must(repo.CommitAll("initial"))
-	_, err = repo.Git("checkout", "-q", "-b", "feature")
+	repo.Branch = sc.Branch
+	_, err = repo.Git("checkout", "-q", "-b", repo.branch())
 	must(err)
 	digest := fnv.New64a()
 	for ci, c := range sc.Commits {
@@ -394,6 +414,10 @@ func runC20(t *testing.T, sc C20Scenario, record bool) *detsim.Outcome {
 			return out
 		}
 		ev := &sc.Evaluations[ci]
+		if c.Actor == "base" {
+			out.Probes["commit_on_base_branch"]++
+			continue // nothing to judge: the branch under review did not move
+		}
 		reps, _, err := repo.RunPintCI(pint, cfg)
 		out.Sched.Decisions++
 		if err != nil {
